@@ -367,6 +367,10 @@ class BusCookieAuthenticator :
         hash_str = None
         shash = 1
         try:
+            if isinstance(response, str):
+                # the authenticator hands the decoded (ASCII) response over
+                response = response.encode('ascii')
+
             client_challenge, hash_str = response.split()
 
             tohash = (
